@@ -99,25 +99,33 @@ pub trait CtrV {
 
 /// Trait with `&self` and `&mut self` methods and a clonable client (Value / RefMut / SharedMut servers).
 #[remoc::rtc::remote(clone)]
-pub trait CtrM {
+pub trait CtrM: Send + Sync {
     async fn get(&self, id: u32, arg: u32, susp: u32) -> Result<Reply, AppErr>;
     #[no_cancel]
     async fn get_nc(&self, id: u32, arg: u32, susp: u32) -> Result<Reply, AppErr>;
     async fn add(&mut self, id: u32, arg: u32, susp: u32) -> Result<Reply, AppErr>;
+    /// A *provided* method that the served object overrides: a call through the client must run
+    /// the target's implementation (logged as `AddNc`), not this body on top of the proxy (which
+    /// would show up as a foreign `Add` execution).
     #[no_cancel]
-    async fn add_nc(&mut self, id: u32, arg: u32, susp: u32) -> Result<Reply, AppErr>;
+    async fn add_nc(&mut self, id: u32, arg: u32, susp: u32) -> Result<Reply, AppErr> {
+        self.add(id, arg, susp).await
+    }
 }
 
 /// Trait with `&self` methods only (Value / Ref / Shared servers); `bump` mutates through interior
 /// mutability in one synchronous step.
 #[remoc::rtc::remote]
-pub trait CtrR {
+pub trait CtrR: Send + Sync {
     async fn get(&self, id: u32, arg: u32, susp: u32) -> Result<Reply, AppErr>;
     #[no_cancel]
     async fn get_nc(&self, id: u32, arg: u32, susp: u32) -> Result<Reply, AppErr>;
     async fn bump(&self, id: u32, arg: u32, susp: u32) -> Result<Reply, AppErr>;
+    /// Provided and overridden by the served object (see `CtrM::add_nc`).
     #[no_cancel]
-    async fn bump_nc(&self, id: u32, arg: u32, susp: u32) -> Result<Reply, AppErr>;
+    async fn bump_nc(&self, id: u32, arg: u32, susp: u32) -> Result<Reply, AppErr> {
+        self.bump(id, arg, susp).await
+    }
 }
 
 /// Which callee entry point ran.
